@@ -462,13 +462,14 @@ class SVG:
             svg.apply_style_attributes(inplace=True)
             return svg
 
-        if self.elements:
-            # if we already parsed the SVG shapes, apply style attrs and sync tree
-            for shape in self.shapes():
-                shape.apply_style_attribute(inplace=True)
-            self._update_etree()
+        # Sync shapes we already parsed, then resolve styles on the tree alone.
+        # Applying styles to the cached shapes first and syncing them before their
+        # ancestors' styles are parsed compares each shape against a stale inherited
+        # context, e.g. a shape's own "stroke:none" under <g style="stroke:black">
+        # was dropped as redundant and the shape came out stroked.
+        self._update_etree()
 
-        # parse all remaining style attributes (e.g. in gradients or root svg element)
+        # parse all style attributes (shapes, groups, gradients, root svg element)
         for el in itertools.chain((self.svg_root,), self.xpath("//svg:*[@style]")):
             self._apply_styles(el)
 
